@@ -69,7 +69,7 @@ PROPS = {
         runs={"quick": [["query-C14", "--scenarios", "40000"]], "thorough": [["query-C14", "--scenarios", "1000000"]]},
         trusted=QUERY_TRUST,
         statement="lexer, parser and evaluator never panic, for all byte strings",
-        partial="proved: lexer and parser panic-freedom for every input; parser_terminates (the recursion driven by fuel 16*len+64 never runs out, for every text: lexer_makes_progress + a remaining-token measure through all eleven mutually recursive parser functions), so parse returns a tree or one of the parser's own errors; evaluator totality by construction. Not proved: the running time of the regexp engine and of strconv.ParseFloat (Go library code, behind oracles)",
+        partial="proved: lexer and parser panic-freedom for every input; parser_terminates (the recursion driven by fuel 16*len+64 never runs out, for every text: lexer_makes_progress + a remaining-token measure through all eleven mutually recursive parser functions), so parse returns a tree or one of the parser's own errors; evaluator totality by construction; the answer is a function of (text, metadata) in the model, and the regenerated fact query_is_pure (imports, no package-level variables) ties that to the source. Not proved: the running time of the regexp engine and of strconv.ParseFloat (Go library code, behind oracles)",
     ),
     "C15": dict(
         modules=["Syzgy.Props.C15"], ties=["Query"],
